@@ -77,3 +77,28 @@ Print Assumptions C10_uniform_alloc_exact.
 Print Assumptions C10_uniform_reset.
 Print Assumptions C10_uniform_history_exact.
 Print Assumptions C10_exact_predicate.
+
+(* ---------- the source tie (LeafActual.v, regenerated from /repo on every run): the slice a footer
+   reports is (finger, footer address - finger) — the pair q_iter_chunks lists for each chunk — and
+   the iterators start at the current footer, stop at the sentinel, follow `prev`, the safe one
+   wrapping the raw one (pinned statements) ---------- *)
+From BV Require Import RustSem LeafActual LeafActualOk.
+From Coq Require Import String.
+Theorem C10_source_chunk_parts : forall foot start ptr, ptr <= foot ->
+  call_fn src_fns (footer_self foot start ptr) "chunk_parts_ptr" [] = RustSem.Ret (VN ptr) /\
+  call_fn src_fns (footer_self foot start ptr) "chunk_parts_len" [] = RustSem.Ret (VN (foot - ptr)).
+Proof. exact src_chunk_parts_ok. Qed.
+
+Theorem C10_model_lists_source_parts : forall b,
+  q_iter_chunks b = map (fun c => (c_ptr c, c_foot c - c_ptr c)) (chunks b).
+Proof. reflexivity. Qed.
+
+Theorem C10_source_frames :
+  Forall (fun n => lookup n src_frames = Some true)
+    ["chunk_parts_returned"; "chunk_iter_wraps_raw"; "chunk_raw_iter_walk";
+     "chunk_raw_iter_starts_at_current"; "chunk_iter_from_raw"]%string.
+Proof. repeat (constructor; [vm_compute; reflexivity|]). constructor. Qed.
+
+Print Assumptions C10_source_chunk_parts.
+Print Assumptions C10_model_lists_source_parts.
+Print Assumptions C10_source_frames.
